@@ -88,6 +88,8 @@ def random_data(seed, nt=3, nv=2, nq=2, na=1, equal_e=False, t_layout="zero_firs
          "wq": numpy.array([r.uniform(0.5, 8) for _ in range(nq)]),
          "na": na}
     d["omega"][:, 0, :3] = 0.0
+    # q-point coordinates are labels: the exclusion of the three lowest modes of the FIRST listed q-point is positional (C13), whatever its coordinates
+    d["qcoords"] = [((0.0, 0.0, 0.0) if (seed % 2 == 0 and q == 0) else (0.125 + 0.1 * q, 0.25, 0.375)) for q in range(nq)]
     ei = numpy.array([r.uniform(0.05, 0.9) for _ in range(nv)])
     d["e_i"] = ei
     d["e_j"] = ei.copy() if equal_e else numpy.array([r.uniform(0.05, 0.9) for _ in range(nv)])
@@ -106,7 +108,7 @@ def native_contribution(data, kind):
     calc = types.SimpleNamespace(qha_calculator=qha, nv=len(data["V"]), np=3 * data["na"], nq=nq, na=data["na"],
                                  v_array=data["V"], t_array=data["T"], freq_array=data["omega"],
                                  mode_gamma=[data["g1"], data["gamma"], data["gamma"] ** 2],
-                                 qha_input=types.SimpleNamespace(weights=[((0.0, 0.0, 0.0), w) for w in data["wq"]]),
+                                 qha_input=types.SimpleNamespace(weights=[(tuple(c), w) for c, w in zip(data.get("qcoords", [(0.0, 0.0, 0.0)] * nq), data["wq"])]),
                                  static_p_array=data["Pstatic"])
     cls = nonshear.LongitudinalElasticModulusPhononContribution if kind == "longitudinal" else nonshear.OffDiagonalElasticModulusPhononContribution
     with warnings.catch_warnings(), numpy.errstate(all="ignore"):
